@@ -620,6 +620,10 @@ func (mru *memRepoUpload) Digest() digest.Digest {
 func (mru *memRepoUpload) Verify(expect digest.Digest) error {
 	mru.mu.Lock()
 	defer mru.mu.Unlock()
+	// an upload created for a specific digest cannot be completed with another, Close would fail after the content was accepted
+	if mru.expect != "" && mru.expect != expect {
+		return fmt.Errorf("digest mismatch, upload was created for %s, received %s", mru.expect, expect)
+	}
 	if mru.d.Digest() == expect {
 		return nil
 	}
